@@ -225,13 +225,23 @@ func GenMetrics(t *sim.Tape, maxGlyphs int) *afm.Metrics {
 // spacing, CRLF line ends and field order.
 func AFMRelayout(t *sim.Tape, m *afm.Metrics) []byte {
 	var sb strings.Builder
-	nl := []string{"\n", "\r\n"}[t.Choose(2)]
+	base := []string{"\n", "\r\n"}[t.Choose(2)]
+	odd := t.Choose(5) == 0
+	// the file's line ending; in one file in five a line in ten ends differently
+	// (a bare CR, as classic Mac OS wrote it, is not a line end for the reader:
+	// it must be not-a-line-end under every delivery)
+	nlf := func() string {
+		if odd && t.Choose(10) == 0 {
+			return []string{"\r", "\n\r", "\r\r\n", "\n", "\r\n"}[t.Choose(5)]
+		}
+		return base
+	}
 	sp := func() string { return []string{" ", "  ", "\t", " \t "}[t.Choose(4)] }
-	fmt.Fprintf(&sb, "StartFontMetrics%s4.1%s", sp(), nl)
-	fmt.Fprintf(&sb, "Comment generated%s", nl)
+	fmt.Fprintf(&sb, "StartFontMetrics%s4.1%s", sp(), nlf())
+	fmt.Fprintf(&sb, "Comment generated%s", nlf())
 	if t.Choose(25) == 0 {
 		// a line longer than a line scanner's default limit (64 KiB)
-		fmt.Fprintf(&sb, "Comment %s%s", strings.Repeat("long ", 13200+t.Choose(200)), nl)
+		fmt.Fprintf(&sb, "Comment %s%s", strings.Repeat("long ", 13200+t.Choose(200)), nlf())
 	}
 	hdr := []string{
 		fmt.Sprintf("FontName%s%s", sp(), m.FontName),
@@ -248,10 +258,10 @@ func AFMRelayout(t *sim.Tape, m *afm.Metrics) []byte {
 	// rotate the header order
 	r := t.Choose(len(hdr))
 	for i := range hdr {
-		sb.WriteString(hdr[(i+r)%len(hdr)] + nl)
+		sb.WriteString(hdr[(i+r)%len(hdr)] + nlf())
 	}
 	names := m.GlyphList()
-	fmt.Fprintf(&sb, "StartCharMetrics%s%d%s", sp(), len(names), nl)
+	fmt.Fprintf(&sb, "StartCharMetrics%s%d%s", sp(), len(names), nlf())
 	for _, nm := range names {
 		g := m.Glyphs[nm]
 		if g == nil {
@@ -274,7 +284,7 @@ func AFMRelayout(t *sim.Tape, m *afm.Metrics) []byte {
 		for _, k := range lk {
 			fmt.Fprintf(&sb, " L %s %s ;", k, g.Ligatures[k])
 		}
-		sb.WriteString(nl)
+		sb.WriteString(nlf())
 	}
 	// further glyphs that claim a code another glyph has already (the later line
 	// wins in the reader, always)
@@ -287,17 +297,17 @@ func AFMRelayout(t *sim.Tape, m *afm.Metrics) []byte {
 				break
 			}
 		}
-		fmt.Fprintf(&sb, "C %d ; WX %d ; N Dup%d ; B 0 0 %d %d ;%s", code, 100+i, i, 10*i, 20*i, nl)
+		fmt.Fprintf(&sb, "C %d ; WX %d ; N Dup%d ; B 0 0 %d %d ;%s", code, 100+i, i, 10*i, 20*i, nlf())
 	}
-	fmt.Fprintf(&sb, "EndCharMetrics%s", nl)
+	fmt.Fprintf(&sb, "EndCharMetrics%s", nlf())
 	if len(m.Kern) > 0 {
-		fmt.Fprintf(&sb, "StartKernData%sStartKernPairs %d%s", nl, len(m.Kern), nl)
+		fmt.Fprintf(&sb, "StartKernData%sStartKernPairs %d%s", nlf(), len(m.Kern), nlf())
 		for _, k := range m.Kern {
-			fmt.Fprintf(&sb, "KPX%s%s%s%s%s%d%s", sp(), k.Left, sp(), k.Right, sp(), k.Adjust, nl)
+			fmt.Fprintf(&sb, "KPX%s%s%s%s%s%d%s", sp(), k.Left, sp(), k.Right, sp(), k.Adjust, nlf())
 		}
-		fmt.Fprintf(&sb, "EndKernPairs%sEndKernData%s", nl, nl)
+		fmt.Fprintf(&sb, "EndKernPairs%sEndKernData%s", nlf(), nlf())
 	}
-	fmt.Fprintf(&sb, "EndFontMetrics%s", nl)
+	fmt.Fprintf(&sb, "EndFontMetrics%s", nlf())
 	return []byte(sb.String())
 }
 
